@@ -107,7 +107,7 @@ def judge_generate(mon, S, cc, bank, acct, branch, table):
         if o.ok:
             tag = "dropped_or_altered_component" if "longer" in exp.why or "both supplied" in exp.why else "returned_despite_" + exp.why.replace(" ", "_")[:40]
             mon.viol("generate_" + tag, w, f"library error ({exp.why})", str(o.value))
-        elif exp.classes and o.exc_name not in exp.classes:
+        elif exp.classes and not (o.exc_names & set(exp.classes)):
             mon.viol(f"too_long_component_wrong_class:{o.exc_name}", w, sorted(exp.classes), o.brief())
         else:
             mon.tally("error_" + o.exc_name)
@@ -132,7 +132,7 @@ def judge_components(mon, S, cc, bank, acct, branch, table):
     elif exp.kind == "error" and exp.classes:
         if o.ok:
             mon.viol("from_components_dropped_or_altered_component", w, sorted(exp.classes), str(o.value))
-        elif o.exc_name not in exp.classes:
+        elif not (o.exc_names & set(exp.classes)):
             mon.viol(f"from_components_too_long_wrong_class:{o.exc_name}", w, sorted(exp.classes), o.brief())
 
 
